@@ -53,6 +53,18 @@ CHECKS = {
             'they are labelled with and one real periodic-loop pass is checked on the wire.',
             'Single subscriber; content comparison goes through the library reader (versions, handles, grouping through lxml only); '
             'ordering under concurrent writers is covered by the schedule-exploration part when present in the evidence.', '3/C04'),
+    'C10': ('H', 'explicit-state exploration of histories of set_location, SetContextState invocations (real consumer client, provider SCO worker body, role provider) and context transactions; invariant on the context table and on every EpisodicContextReport',
+            'All 2-event histories over 26 events and all 3-event histories over a 7-event core (thorough: larger core): SetContextState '
+            'requests with one or two proposals (new / update of the first or second existing state / stale handle x NoAssociation, '
+            'PreAssociation, Associated, Disassociated, including two associated proposals for one descriptor) sent by the real consumer '
+            'context client and executed by the real operation worker loop body and role provider; SdcProvider.set_location; library '
+            'context transactions. After every event: at most one associated state per context descriptor; a state that stopped being '
+            'associated is Disassociated with UnbindingMdibVersion == the MdibVersion of that commit and BindingEndTime set; a newly '
+            'associated one has BindingMdibVersion == that MdibVersion and BindingStartTime; context-state handles unique and distinct '
+            'from descriptor handles; the same on the states inside every EpisodicContextReport on the wire; a request answered with '
+            'Fail leaves the full canonical snapshot unchanged.',
+            'Only the patient context has a SetContextState operation in tests/mdib_tns.xml; queued operations are executed by running '
+            'the real worker loop body synchronously.', '3/C10'),
     'C11': ('H', 'explicit-state BFS with canonical-state dedup over table operation histories on the real MultiKeyLookup tables, plus MDIB history exploration; invariant = indices equal an independent regrouping of table.objects',
             'Breadth-first search over add (3 variants) / remove (3 variants) / attribute write + update_object / clear / bulk add / '
             'update_objects / duplicate-key add on the real DescriptorsLookup, StatesLookup, MultiStatesLookup, a generic 3-index '
